@@ -14,6 +14,8 @@ import Bmc.Driver.Suite
 import Bmc.Driver.Hist
 import Bmc.Driver.Conv
 import Bmc.Driver.Enc
+import Bmc.Driver.Sdr
+import Bmc.Driver.Enum
 open Bmc.Driver
 
 def decTables : List (String × DecFn) := decTableBasic ++ decTableCore ++ decTableSess ++ decTableDcmi ++ decTableSdr ++ decTableSetup
@@ -45,6 +47,10 @@ def step (line : String) : String :=
   | id :: _cls :: "enc" :: args => s!"{id} {evalEnc args}"
   | id :: _cls :: "pkt" :: args => s!"{id} {evalPkt args}"
   | id :: _cls :: "pktcmd" :: args => s!"{id} {evalPktCmd args}"
+  | id :: _cls :: "sdr" :: args => s!"{id} {evalSdr args}"
+  | id :: _cls :: "suites" :: args => s!"{id} {evalSuites args}"
+  | id :: _cls :: "parse" :: args => s!"{id} {evalParse args}"
+  | id :: _cls :: "dcmi" :: args => s!"{id} {evalDcmi args}"
   | id :: _ => s!"{id} bad-op"
   | [] => ""
 
